@@ -124,6 +124,10 @@ func c07InitialN(c *Ctx, g *load.G, kind string, fd *ast.FuncDecl, need []string
 			okAll, how := true, ""
 			for _, p := range paths {
 				ret := lastReturn(p)
+				// the prefix computed first, then walked (`for _, item := range s.leadingExprs() { … }`)
+				if strings.HasPrefix(n, "<") && prefixThenInclude(p, recv+"."+field, ret) {
+					continue
+				}
 				lo, hi := loopSpan(p, "range "+recv+"."+field)
 				if lo < 0 {
 					okAll, how = false, "a path has no loop over "+field
@@ -627,4 +631,78 @@ func seqVisitStopsAtFirstNonNullable(c *Ctx, g *load.G, rule string) {
 	r.Check(len(bad) == 0 && nFalse >= 1, rule, "G.ast.SeqExpr.NullableVisit:stops-at-the-first-non-nullable-item", "", g.Where(fd.Pos()),
 		fmt.Sprintf("%d path(s) on which an item is non-nullable, each leaving the loop at once", nFalse),
 		strings.Join(uniq(bad), "; ")+": the items behind the first non-nullable one are not at the start position; visiting them walks through consuming recursion, where Rule.NullableVisit's cycle cut answers false and the reference keeps that provisional answer - a nullable rule then reads non-nullable and left recursion behind it goes undetected (`A <- Z A 'q' / 'y'; Z <- 'a' A / \"\"` is accepted)")
+}
+
+// prefixThenInclude: the path first scouts the list F for its first non-nullable item and then includes the
+// InitialNames of every item of the prefix through that item - `range F[:#1+1]` entered from inside the scouting loop
+// under `!F[#1].IsNullable()` - or, when the scouting loop found every item nullable, of every item of F.
+func prefixThenInclude(p bpath, F, ret string) bool {
+	var loops []int
+	for i, e := range p {
+		if e.Kind == "loop" && (e.Text == "range "+F || e.Text == "range "+F+"[:#1+1]") {
+			loops = append(loops, i)
+		}
+	}
+	if len(loops) != 2 || p[loops[0]].Text != "range "+F {
+		return false
+	}
+	scout, incl := loops[0], loops[1]
+	elem := F + "[#1]"
+	closed, nonNullable := false, false
+	for i := scout + 1; i < incl; i++ {
+		e := p[i]
+		switch e.Kind {
+		case "endloop":
+			closed = true
+		case "call":
+			if e.Text != elem+".IsNullable()" {
+				return false
+			}
+		case "+":
+			switch e.Text {
+			case "!" + elem + ".IsNullable()":
+				nonNullable = true
+			case elem + ".IsNullable()":
+			default:
+				return false
+			}
+		case "set":
+			// the prefix kept in a local
+			if !strings.HasSuffix(e.Text, "="+F+"[:#1+1]") && !strings.HasSuffix(e.Text, "="+F) {
+				return false
+			}
+		default:
+			return false
+		}
+	}
+	elem2 := elem
+	if p[incl].Text == "range "+F+"[:#1+1]" {
+		if closed || !nonNullable {
+			return false
+		}
+		elem2 = F + "[:#1+1][#1]"
+	} else if !closed || nonNullable {
+		return false
+	}
+	// the inclusion loop: every item, unconditionally, no early exit
+	end := len(p)
+	depth := 0
+	for i := incl + 1; i < len(p); i++ {
+		if p[i].Kind == "loop" {
+			depth++
+		}
+		if p[i].Kind == "endloop" {
+			if depth == 0 {
+				end = i
+				break
+			}
+			depth--
+		}
+	}
+	for i := incl + 1; i < end; i++ {
+		if p[i].Kind == "branch" || p[i].Kind == "return" {
+			return false
+		}
+	}
+	return includesNames(p, incl+1, end, elem2, ret)
 }
